@@ -40,12 +40,13 @@ class Reporter:
         self.trusted = []
         self.not_decided = []
         self.extra = {}
+        self.suffix = ''
 
     def rule(self, rule, doc):
         self.rules_doc[rule] = doc
 
     def _add(self, rule, subject, status, where, msg, detail=None, nontrivial=True):
-        key = '%s/%s/%s' % (self.prop, rule, subject)
+        key = '%s/%s/%s%s' % (self.prop, rule, subject, self.suffix)
         self.instances.append(Instance(self.prop, rule, key, status, where, msg, detail, nontrivial))
 
     def holds(self, rule, subject, where, msg, detail=None, nontrivial=True):
